@@ -219,8 +219,17 @@ pub fn generate(repo: &PathBuf) -> Result<String, String> {
     s.push_str(&format!("/-- `REPLICATION_TIMEOUT` in seconds -/\ndef replicationTimeout : Nat := {repl_timeout}\n"));
     s.push_str(&lean_cmp("replTooSoon", "try_interval_replication: `last_replication.elapsed() OP MIN_REPLICATION_INTERVAL_S` skips the round (a = elapsed, b = minimum)", &throttle_op)?);
     s.push_str(&lean_cmp("targetStillFresh", "try_interval_replication: `*timestamp OP now` keeps a recently served target (a = its deadline, b = clock)", &fresh_op)?);
-    s.push_str(&lean_cmp("peerInRange", "get_peers_in_range: `distance OP range` (a = distance, b = range)", &in_range_op)?);
-    s.push_str(&lean_cmp("enoughInRange", "get_replicate_candidates: `peers_in_range.len() OP CLOSE_GROUP_SIZE` returns the in-range peers (a = count, b = close group size)", &enough_op)?);
+    // the selection step itself is modelled in SafeNet.Distance (operator of get_peers_in_range from Gen.Distance.inRangeLe);
+    // what that model fixes by construction is checked here
+    if enough_op != ">=" {
+        return Err(format!("get_replicate_candidates: `peers_in_range.len() {enough_op} CLOSE_GROUP_SIZE`, the distance model assumes `>=`"));
+    }
+    if !["<=", "<"].contains(&in_range_op.as_str()) {
+        return Err(format!("get_peers_in_range: `distance {in_range_op} range` is neither `<=` nor `<`"));
+    }
+    if !gsrc.contains("letpeers_in_range=get_peers_in_range(&closest_k_peers,target,responsible_range);") {
+        return Err("get_replicate_candidates: the in-range peers are no longer `get_peers_in_range(all local peers closest first, target, range)`".into());
+    }
     s.push_str(&format!("/-- the `Cmd::Replicate` arm hands the request's `holder` and `keys` to `add_keys_to_replication_fetcher` -/\ndef replicateArmPassesOn : Bool := {}\n", lean_bool(arm_passes_on)));
     s.push_str(&format!("/-- the handler returns early unless the holder is among `get_closest_k_value_local_peers()` -/\ndef replicateChecksCloseness : Bool := {}\n", lean_bool(checks_close)));
     s.push_str(&format!("/-- the handler returns early when the holder is this node -/\ndef replicateRejectsSelf : Bool := {}\n", lean_bool(rejects_self)));
